@@ -1,3 +1,8 @@
-import UtilModel.Core.LTS
-open UtilModel
+import UtilModel.Routine.Props
+open UtilModel UtilModel.Routine
 #print axioms UtilModel.accepts_sound
+#print axioms UtilModel.Routine.step_cur
+#print axioms UtilModel.Routine.cur_run
+#print axioms UtilModel.Routine.superseded_cancelled
+#print axioms UtilModel.Routine.quiescent_survivor
+#print axioms UtilModel.Routine.survivor_unique
